@@ -214,12 +214,64 @@ pub fn check_pure(ctx: &Ctx, c: &Case, hdrs: &[(String, String)], case_seed: u64
     }
 }
 
+/// Responses built by the convenience constructors from text / bytes that are not plain ASCII:
+/// the message must delimit exactly the bytes given (a length counted in characters would not).
+fn check_ctor(ctx: &Ctx, case_seed: u64) {
+    use tiny_http::{HTTPVersion, Response};
+    let rep = &ctx.rep;
+    let mut rng = Rng::new(case_seed ^ 0xC70);
+    let alphabet = ["a", "Z", " ", "é", "ß", "€", "漢", "😀", "\u{a0}", "\n", "0"];
+    let n = *rng.pick(&[0usize, 1, 5, 40, 3000]);
+    let text: String = (0..n).map(|_| *rng.pick(&alphabet)).collect();
+    let version = *rng.pick(&[(1u8, 0u8), (1, 1)]);
+    let from_data = rng.chance(1, 2);
+    crate::util::current_case(case_seed, "ctor");
+    let mut out = Vec::new();
+    let r = std::panic::catch_unwind(std::panic::AssertUnwindSafe(|| {
+        if from_data {
+            Response::from_data(text.clone().into_bytes()).raw_print(&mut out, HTTPVersion(version.0, version.1), &[], false, None)
+        } else {
+            Response::from_string(text.clone()).raw_print(&mut out, HTTPVersion(version.0, version.1), &[], false, None)
+        }
+    }));
+    rep.eval(Some(&format!("ctor|{}|n{}|v{}", from_data, n, version.1)));
+    rep.inc("constructor_cases_with_non_ascii_text");
+    let fail = |signature: &str, what: String| {
+        rep.violation(Violation {
+            signature: signature.to_string(),
+            what,
+            detail: J::obj().set("text", J::S(text.chars().take(80).collect())).set("bytes", J::u(text.len())).set("chars", J::u(text.chars().count())).set("output", J::bytes(&out)),
+            case_seed,
+            mode: "ctor".to_string(),
+        });
+    };
+    if !matches!(r, Ok(Ok(()))) {
+        let _ = crate::env::panics_take();
+        fail("C04/raw_print-error", "printing a from_string/from_data response failed".into());
+        return;
+    }
+    match httpc::parse_response(&out, false) {
+        Parse::Done(resp, used) => {
+            if used != out.len() {
+                fail("C04/trailing-bytes", format!("{} bytes follow the end of the message built from a {}-byte text of {} characters", out.len() - used, text.len(), text.chars().count()));
+            } else if resp.body != text.as_bytes() {
+                fail("C04/body-mismatch", format!("client recovers {} body bytes, the text has {}", resp.body.len(), text.len()));
+            }
+        }
+        Parse::Bad(e) => fail("C04/malformed", format!("not a well-formed message: {}", e)),
+        Parse::Incomplete => fail("C04/truncated", "message is incomplete".into()),
+        Parse::UntilClose(_, _) => fail("C04/needs-close", "message end can only be found by connection close".into()),
+    }
+}
+
 pub fn run(ctx: &Ctx) {
     if let Some((cs, mode, _)) = &ctx.replay {
         if mode == "pure" {
             let mut rng = Rng::new(*cs);
             let (c, h) = gen_case(&mut rng);
             check_pure(ctx, &c, &h, *cs);
+        } else if mode == "ctor" {
+            check_ctor(ctx, *cs);
         } else {
             crate::pconv::run(ctx);
         }
@@ -233,6 +285,9 @@ pub fn run(ctx: &Ctx) {
             let mut rng = Rng::new(cs);
             let (c, h) = gen_case(&mut rng);
             check_pure(ctx, &c, &h, cs);
+            if idx % 32 == 7 {
+                check_ctor(ctx, cs);
+            }
             idx += 1;
         }
         ctx.rep.counts.add("pure_cases", idx);
